@@ -360,13 +360,23 @@ def r4_dimensions(program, rep):
     if ok:
         rn_t = T.cfg.node_of(last[0])
         paths = T.facts_by_path(rn_t)
+        # the height factor actually used in the result
+        ht = plain(T.term(last[0].value.elts[1], rn_t))
+        HT = None
+        if ht[0] == "binop" and ht[1] == "Mult":
+            nc = [z for z in (ht[2], ht[3]) if z[0] != "const"]
+            HT = nc[0] if len(nc) == 1 else None
+        if HT is None:
+            raise AnalysisError("standard_system_dimensions: the height "
+                                "factor of the result")
 
         def factor_fact(facts):
             for t, p in facts:
                 if p and t[0] == "cmp" and t[1] == "Eq" and \
                         ("const", 0) in (t[2], t[3]):
                     o = t[3] if t[2] == ("const", 0) else t[2]
-                    if o[0] == "binop" and o[1] == "Mod":
+                    if o[0] == "binop" and o[1] == "Mod" and \
+                            plain(o[3]) == HT:
                         try:
                             if fl.sym(_wp(reify(plain(o[2]))),
                                       fl.cfg.entry) == triads:
@@ -377,12 +387,12 @@ def r4_dimensions(program, rep):
         okb = bool(paths) and all(factor_fact(f) for _, f in paths)
         if not okb:
             # a for loop left by break: every break is under the factor test
-            brk = [n for n in ast.walk(fn) if isinstance(n, ast.Break)]
-            okb = bool(brk) and all(
-                factor_fact(T.all_facts(T.cfg.stmt_node[id(b_)]))
-                for b_ in brk if id(b_) in T.cfg.stmt_node)
+            brk = [n for n in T.cfg.nodes if isinstance(n.ast, ast.Break)]
+            okb = bool(brk) and all(factor_fact(T.all_facts(n))
+                                    for n in brk)
     rep.check(okb, "C19-R4", inst, "the factor search stops only where "
-              "triads % h == 0 (so w * h == triads)",
+              "triads % h == 0 for the very h the result uses (so w * h == "
+              "triads)",
               construct="factor search exit", node=fn)
     # % 3 guard raises ValueError
     okg = False
